@@ -240,6 +240,8 @@ pub struct Ctx {
     pub solver: Solver,
     pub mode: Mode,
     pub exact_inputs: HashMap<String, BigRational>,
+    /// value given (in Exact mode) to inputs the model does not mention
+    pub exact_default: BigRational,
     pub var_names: Vec<String>,
     var_ids: HashMap<String, u32>,
     // per-path state
@@ -380,7 +382,7 @@ impl Ctx {
     pub fn new(timeout_ms: u64) -> Self {
         Ctx {
             nodes: vec![], cons: HashMap::new(), deps: vec![], ndeps: vec![], nl: vec![],
-            solver: Solver::new(timeout_ms), mode: Mode::Symbolic, exact_inputs: HashMap::new(),
+            solver: Solver::new(timeout_ms), mode: Mode::Symbolic, exact_inputs: HashMap::new(), exact_default: BigRational::zero(),
             var_names: vec![], var_ids: HashMap::new(),
             pc: vec![], decisions: vec![], prefix: vec![], pending: vec![], trace: vec![], cache: HashMap::new(),
             stats: PathStats::default(), violations: vec![], max_decisions: 400, check_obligations: true, approx: false, n_inputs: 0, branch_nl_timeout_ms: timeout_ms, deadline: None, pc_smt: vec![], levels: vec![], solver_epoch: 0, lin_memo: RefCell::new(HashMap::new()), n_lin_decided: std::cell::Cell::new(0), unit_box: Default::default(), alin_memo: RefCell::new(HashMap::new()), poly_memo: RefCell::new(HashMap::new()), n_poly_decided: std::cell::Cell::new(0), crosscheck_every: 0, ob_seq: 0, crosscheck: (0, 0, 0, vec![]), concolic: None, fval_memo: RefCell::new(HashMap::new()),
